@@ -40,8 +40,8 @@ ASSUMPTION = ("T-hv: the IR's numpy primitives mean what Model/HvIR.lean says (a
               "scatter writes (a write that does not fit is ignored where numpy raises), a[mask], a[idx], ~m, np.logical_and, np.isnan / <= 0 / > 0 on the penalty "
               "vector with NaN = none, np.count_nonzero, np.max(initial=), k + a, p[:, np.newaxis], the while loop with an explicit bound n_unique, Python's "
               "short-circuit and/or, `a or b`); _is_pareto_front(., True) is a parameter of that interpreter (the hand model's frontSorted in the theorems and the "
-              "driver); the constrained branch is proved equal to the three-scatter reference fastRef, whose identification with Rank.fastRank is compared by the "
-              "driver on every case, not proved")
+              "driver); the constrained branch is proved equal to the three-scatter reference fastRef, and fastRef equal to Rank.fastRank "
+              "(Lemmas/RankBridge2.lean), for penalty vectors of the right length")
 
 
 def regenerate(chk: core.Check | None = None) -> dict[str, Any] | None:
@@ -94,7 +94,7 @@ def explain_proof_failure(chk: core.Check) -> list[str]:
     if pr is None or pr.ok:
         return []
     names: list[str] = []
-    for rel in ("OptunaVerif/Props/C15Gen.lean", "OptunaVerif/Props/C15GenSpec.lean", "OptunaVerif/Lemmas/RankIR.lean", "OptunaVerif/Lemmas/RankBridge.lean"):
+    for rel in ("OptunaVerif/Props/C15Gen.lean", "OptunaVerif/Props/C15GenSpec.lean", "OptunaVerif/Lemmas/RankIR.lean", "OptunaVerif/Lemmas/RankBridge.lean", "OptunaVerif/Lemmas/RankBridge2.lean"):
         short = rel.split("OptunaVerif/", 1)[1]
         lines = sorted({int(m.group(1)) for m in re.finditer(re.escape(short) + r":(\d+):\d+: error", pr.build_log)}
                        | {int(m.group(1)) for m in re.finditer(r"error: \S*" + re.escape(short) + r":(\d+):", pr.build_log)})
